@@ -141,6 +141,9 @@ async fn main() {
                     print_section("AUTHORITY", &[soa_rr]);
                 }
             }
+            ResolvedRecord::Referral { ns_rrs } => {
+                print_section("AUTHORITY", &ns_rrs);
+            }
         },
         Err(err) => {
             println!("\n;; ANSWER");
